@@ -22,8 +22,9 @@ RULE = ("2-3 real threads run short programs under a harness-owned deterministic
         "worker with inherit() (worker must be served like one of the states the parent was in while inherit ran); S3 "
         "concurrent register/overload on shared datasets (all aliases present and dispatching afterwards); S4 concurrent "
         "evaluation of shared cached datasets with different options (each thread gets the value of its own options). "
-        "part 'systematic': for a fixed family of program sets ALL schedules with <=1 (quick) / <=2 (thorough) preemptions "
-        "at any yield point; part 'random': generated programs x random schedules with up to 6 preemptions. Non-trivial "
+        "part 'systematic': for a fixed family of program sets ALL schedules with one preemption at any yield point, and "
+        "schedules with two preemptions (quick: pairs on a stride of about 1/22 of the run with a seed-dependent offset; "
+        "thorough: every pair for short runs, a 1/90 stride for long ones); part 'random': generated programs x random schedules with up to 6 preemptions. Non-trivial "
         "= at least one preemption was actually taken while the preempted thread was inside traced labrea code; distinct "
         "= distinct (scenario, programs, schedule) hash.")
 ASSUMPTIONS = [
@@ -281,7 +282,7 @@ FAMILY = [
 
 
 def enum_systematic(ctx):
-    maxp = 1 if ctx.tier == "quick" else 2
+    maxp = 2
     k = 0
     total = 0
     for fi, base in enumerate(FAMILY):
@@ -290,8 +291,11 @@ def enum_systematic(ctx):
         horizon = steps + 30
         scheds = [[]]
         for p in range(1, maxp + 1):
-            stride = 1 if p == 1 else max(1, horizon // (90 if ctx.tier == "thorough" else 40))
-            for pts in itertools.combinations(range(0, horizon, stride), p):
+            # one preemption: every yield point; two preemptions: every pair in the thorough tier when the run is short,
+            # otherwise pairs on a stride whose offset follows VERIF_SEED (so that different seeds cover different pairs)
+            stride = 1 if p == 1 else max(1, horizon // (90 if ctx.tier == "thorough" else 22))
+            offset = ctx.seed % stride
+            for pts in itertools.combinations(range(offset, horizon, stride), p):
                 for targets in itertools.product(range(n), repeat=p):
                     scheds.append([[a, b] for a, b in zip(pts, targets)])
         for s in scheds:
